@@ -572,6 +572,21 @@ def _sink_returns(stmts):
     for st in stmts:
         for owner, f in _child_lists(st):
             setattr(owner, f, _sink_returns(getattr(owner, f)))
+    # a short straight-line tail that ends the function (`log(..); return (True, x)`) after an `if` is copied into the branches that fall through:
+    # `if a: x = 1 elif b: x = 2 else: continue; log(); return (True, x)` becomes one return per branch
+    for i in range(len(stmts) - 2, -1, -1):
+        c = stmts[i]
+        tail = stmts[i + 1:]
+        if isinstance(c, ast.If) and 2 <= len(tail) <= 4 and isinstance(tail[-1], (ast.Return, ast.Raise)) \
+                and all(isinstance(t, (ast.Expr, ast.Assign, ast.AugAssign, ast.Return, ast.Raise)) for t in tail) \
+                and not any(isinstance(x, (ast.Lambda, ast.Yield, ast.YieldFrom, ast.Await)) for t in tail for x in ast.walk(t)) \
+                and (_ends_flow(c.body) or (c.orelse and _ends_flow(c.orelse)) or isinstance(tail[-1].value if isinstance(tail[-1], ast.Return) else None, ast.Tuple)):
+            for f in ("body", "orelse"):
+                br = getattr(c, f)
+                if not _ends_flow(br):
+                    setattr(c, f, _sink_returns(br + copy.deepcopy(tail)))
+            stmts = stmts[:i + 1]
+            break
     changed = True
     while changed:
         changed = False
